@@ -271,6 +271,43 @@ def check_dangling(data, kind, pattern, expect):
     return None
 
 
+def check_skin_sources(seed):
+    """skin and morph references: the sources a loaded controller exposes are the ones its inputs name, and its geometry is the library object
+    carrying the id (documents of the C19 generator, whose <joints> and <vertex_weights> may name different JOINT sources). None, 'skip' or (sig, text)"""
+    import collada
+    from props import c19
+    r = random.Random('c07skin/%s' % seed)
+    for _ in range(40):
+        c, exp = c19.gen_case(r)
+        if exp == 'ok':
+            break
+    else:
+        return 'skip'
+    try:
+        d = collada.Collada(io.BytesIO(c19.doc_xml(c)))
+    except Exception as e:
+        return 'skip'
+    if not d.controllers:
+        return 'skip'
+    ctl = d.controllers[0]
+    if c['kind'] == 'skin':
+        want_wj = 'ctl-wjoints' if c['wj'] is not None else 'ctl-joints'
+        if getattr(ctl.weight_joints, 'id', None) != want_wj:
+            return ('skin-source:weight-joints', 'the JOINT input of <vertex_weights> names #%s but the skin exposes source %r as weight_joints'
+                    % (want_wj, getattr(ctl.weight_joints, 'id', None)))
+        if getattr(ctl.weights, 'id', None) != 'ctl-weights':
+            return ('skin-source:weights', 'the WEIGHT input names #ctl-weights but the skin exposes source %r' % getattr(ctl.weights, 'id', None))
+        names = [str(x) for x in c['names']]
+        if sorted(str(k) for k in ctl.joint_matrices) != sorted(set(names)) and len(set(names)) == len(names):
+            return ('skin-source:joints', 'the JOINT input of <joints> lists %s but the skin has matrices for %s' % (names, sorted(str(k) for k in ctl.joint_matrices)))
+        g = ctl.geometry
+    else:
+        g = ctl.source_geometry
+    if not any(g is x for x in d.geometries) or g.id != c['src']:
+        return ('skin-source:geometry', 'the controller names geometry #%s but is bound to %r which is not that library object' % (c['src'], getattr(g, 'id', None)))
+    return None
+
+
 def check_rename_save(seed):
     """rename every referenced object, write, and read the file independently: every reference resolves to the renamed id"""
     gen = modelgen.Gen(seed)
@@ -419,6 +456,17 @@ def run(ctx):
         ctx.case(dict(kind='dangling', seed=seed, which='sampler_surface_wrong_kind'))
         ctx.count('dangling:sampler_surface_wrong_kind:run')
         report(res, dict(kind='dangling', seed=seed, which='sampler_surface_wrong_kind'))
+    for i in range(ctx.n(120, 3000)):
+        seed = ctx.rng.randrange(10 ** 9)
+        try:
+            res = check_skin_sources(seed)
+        except Exception as e:
+            res = ('skin-source:check-raised', 'checking controller references raised %s: %s' % (type(e).__name__, e))
+        if res == 'skip':
+            continue
+        ctx.case(dict(kind='skin', seed=seed))
+        ctx.count('controller-references')
+        report(res, dict(kind='skin', seed=seed))
     for i in range(ctx.n(40, 1500)):
         seed = ctx.rng.randrange(10 ** 9)
         ctx.case(dict(kind='rename', seed=seed))
@@ -453,6 +501,9 @@ def replay(ctx, rep):
     if k == 'dangling':
         kind, pat, exp = [x for x in DANGLE if x[0] == rep['which']][0]
         res = check_dangling(docgen.generate(rep['seed']), kind, pat, exp)
+        res = None if res == 'skip' else res
+    elif k == 'skin':
+        res = check_skin_sources(rep['seed'])
         res = None if res == 'skip' else res
     elif k == 'rename':
         res = check_rename_save(rep['seed'])
